@@ -211,6 +211,16 @@ class SpaceTimeVariogram:
         # reset the distances
         self._xdist = None
 
+        # lag classes, groups and the fit derived from the old distances
+        # are outdated
+        self._xbins = None
+        self._xgroups = None
+        self.cov, self.cof = None, None
+
+        # a relative, 'median' or 'mean' maxlag refers to the new distances
+        if hasattr(self, '_maxlag_passed_value'):
+            self.maxlag = self._maxlag_passed_value
+
         # update marignal
         self._set_xmarg_params()
 
@@ -249,6 +259,12 @@ class SpaceTimeVariogram:
 
         # reset the distances
         self._tdist = None
+
+        # lag classes, groups and the fit derived from the old distances
+        # are outdated
+        self._tbins = None
+        self._tgroups = None
+        self.cov, self.cof = None, None
 
         # update marignal
         self._set_tmarg_params()
@@ -358,6 +374,10 @@ class SpaceTimeVariogram:
 
     @maxlag.setter
     def maxlag(self, value):
+        # remember the setting as passed (it is resolved again if the
+        # space distances change)
+        self._maxlag_passed_value = value
+
         # reset fitting
         self.cov, self.cof = None, None
 
